@@ -236,20 +236,80 @@ Qed.
 Lemma commit_untouched m k : dirty m k = false -> storage (commit m) k = storage m k.
 Proof. intros D. rewrite commit_storage, D. now rewrite Bool.andb_false_r. Qed.
 
-(* mint / burn deferral (model only) *)
-Lemma lm_abandon_no_effect (l : lm) : lm_finish l false = supply l.
-Proof. reflexivity. Qed.
-Lemma lm_commit_effect (l : lm) : lm_finish l true = supply l + to_mint l - to_burn l.
-Proof. reflexivity. Qed.
-Lemma lm_mint_keeps_supply l amt l' : lm_mint l amt = Ok l' -> supply l' = supply l /\ to_mint l' = to_mint l + amt /\ to_burn l' = to_burn l.
+(* ---------------------------------------------------------------- mint / burn deferral *)
+
+(* independent account of what a list of requests amounts to *)
+Fixpoint lm_sums (sup tm tb : Z) (acts : list lact) : Z * Z :=
+  match acts with
+  | [] => (tm, tb)
+  | LMint amt :: r =>
+      if in_u 64 amt && (in_u 64 (tm + amt) && in_u 64 (sup + (tm + amt))) then lm_sums sup (tm + amt) tb r
+      else lm_sums sup tm tb r
+  | LBurn amt :: r =>
+      if in_u 64 amt && (in_u 64 (tb + amt) && in_u 64 (sup - (tb + amt))) then lm_sums sup tm (tb + amt) r
+      else lm_sums sup tm tb r
+  | LSupply :: r => lm_sums sup tm tb r
+  end.
+
+Lemma lm_run_sums acts : forall l,
+  fst (lm_run l acts) =
+    mklm (supply l) (fst (lm_sums (supply l) (to_mint l) (to_burn l) acts))
+                    (snd (lm_sums (supply l) (to_mint l) (to_burn l) acts)).
 Proof.
-  unfold lm_mint. destruct (in_u 64 amt); [|discriminate].
-  destruct (in_u 64 (to_mint l + amt) && in_u 64 (supply l + (to_mint l + amt))); [|discriminate].
-  intros E. inversion E. cbn. auto.
+  induction acts as [|a r IH]; intros [sup tm tb]; cbn [lm_run lm_sums supply to_mint to_burn].
+  - reflexivity.
+  - destruct a as [amt|amt|]; cbn [lm_step].
+    + unfold lm_mint. cbn [supply to_mint to_burn].
+      destruct (in_u 64 amt); cbn [andb].
+      * destruct (in_u 64 (tm + amt) && in_u 64 (sup + (tm + amt))).
+        -- specialize (IH (mklm sup (tm + amt) tb)). destruct (lm_run (mklm sup (tm + amt) tb) r). exact IH.
+        -- specialize (IH (mklm sup tm tb)). destruct (lm_run (mklm sup tm tb) r). exact IH.
+      * specialize (IH (mklm sup tm tb)). destruct (lm_run (mklm sup tm tb) r). exact IH.
+    + unfold lm_burn. cbn [supply to_mint to_burn].
+      destruct (in_u 64 amt); cbn [andb].
+      * destruct (in_u 64 (tb + amt) && in_u 64 (sup - (tb + amt))).
+        -- specialize (IH (mklm sup tm (tb + amt))). destruct (lm_run (mklm sup tm (tb + amt)) r). exact IH.
+        -- specialize (IH (mklm sup tm tb)). destruct (lm_run (mklm sup tm tb) r). exact IH.
+      * specialize (IH (mklm sup tm tb)). destruct (lm_run (mklm sup tm tb) r). exact IH.
+    + specialize (IH (mklm sup tm tb)). destruct (lm_run (mklm sup tm tb) r). exact IH.
 Qed.
-Lemma lm_burn_keeps_supply l amt l' : lm_burn l amt = Ok l' -> supply l' = supply l /\ to_burn l' = to_burn l + amt /\ to_mint l' = to_mint l.
+
+Lemma in_u64 x : in_u 64 x = true <-> 0 <= x < 2 ^ 64.
+Proof. unfold in_u. rewrite andb_true_iff, Z.leb_le, Z.ltb_lt. tauto. Qed.
+
+Lemma lm_sums_bounds acts : forall sup tm tb, 0 <= tm -> 0 <= tb -> sup + tm < 2 ^ 64 -> tb <= sup ->
+  let '(tm', tb') := lm_sums sup tm tb acts in
+  tm <= tm' /\ tb <= tb' /\ sup + tm' < 2 ^ 64 /\ tb' <= sup.
 Proof.
-  unfold lm_burn. destruct (in_u 64 amt); [|discriminate].
-  destruct (in_u 64 (to_burn l + amt) && in_u 64 (supply l - (to_burn l + amt))); [|discriminate].
-  intros E. inversion E. cbn. auto.
+  induction acts as [|a r IH]; intros sup tm tb H1 H2 H3 H4; cbn [lm_sums].
+  - lia.
+  - destruct a as [amt|amt|].
+    + destruct (in_u 64 amt && (in_u 64 (tm + amt) && in_u 64 (sup + (tm + amt)))) eqn:C.
+      * apply andb_prop in C as [C1 C]. apply andb_prop in C as [C2 C3].
+        apply in_u64 in C1, C2, C3.
+        specialize (IH sup (tm + amt) tb). destruct (lm_sums sup (tm + amt) tb r). lia.
+      * apply IH; assumption.
+    + destruct (in_u 64 amt && (in_u 64 (tb + amt) && in_u 64 (sup - (tb + amt)))) eqn:C.
+      * apply andb_prop in C as [C1 C]. apply andb_prop in C as [C2 C3].
+        apply in_u64 in C1, C2, C3.
+        specialize (IH sup tm (tb + amt)). destruct (lm_sums sup tm (tb + amt) r). lia.
+      * apply IH; assumption.
+    + apply IH; assumption.
+Qed.
+
+(* the deferral: the operation only accumulates; an abandoned operation reaches the token
+   program with nothing; a committed one mints / burns exactly the accumulated totals, and the
+   resulting supply stays a u64 *)
+Lemma mint_burn_deferred acts sup : 0 <= sup < 2 ^ 64 ->
+  let l := fst (lm_run (mklm sup 0 0) acts) in
+  supply l = sup /\
+  (to_mint l, to_burn l) = lm_sums sup 0 0 acts /\
+  lm_cpis l false = [] /\ lm_finish l false = sup /\
+  lm_finish l true = sup + to_mint l - to_burn l /\ 0 <= lm_finish l true < 2 ^ 64.
+Proof.
+  intros Hs. cbn zeta. rewrite (lm_run_sums acts (mklm sup 0 0)). cbn [supply to_mint to_burn lm_cpis lm_finish].
+  pose proof (lm_sums_bounds acts sup 0 0) as B.
+  destruct (lm_sums sup 0 0 acts) as [tm tb]. cbn [fst snd].
+  assert (B' : 0 <= tm /\ 0 <= tb /\ sup + tm < 2 ^ 64 /\ tb <= sup) by (apply B; lia).
+  repeat split; try reflexivity; lia.
 Qed.
